@@ -461,6 +461,33 @@ def mon_c17(sc, prof, pairs):
 MONITORS["C16"] = mon_c16
 
 
+def mon_c19(sc, prof, pairs):
+    """on a desynchronised container every safe method panics, returns None, or returns data within the
+    initialised part of every field array (inb), never aborts the process through std's UB checks, and nothing
+    is destroyed twice (ledger, final drop included)"""
+    out = []
+    after = False
+    for i, s in pairs:
+        if i["step"] == "end":
+            if i.get("double_drop") == "true":
+                line = "; ".join(sc.lines[2:])
+                out.append(Failure(sc, prof, "end", f"{line}: a value was destroyed twice", f"C19:{sc.lines[2].split()[0] if len(sc.lines) > 2 else 'end'}:double_drop", {"I": i["raw"]}))
+            continue
+        line = sc.lines[int(i["step"])]
+        op = line.split()[0]
+        if op == "desync": after = True; continue
+        if not after: continue
+        sub = op + (":" + line.split()[4] if op in ("get", "index") and len(line.split()) > 4 else "")
+        if i["status"] == "abort" and i.get("cause") == "ubcheck":
+            out.append(Failure(sc, prof, i["step"], f"{line}: an unchecked out-of-bounds access was executed (caught by std's debug check of the unsafe precondition, which aborts the process)", f"C19:{sub}:ubcheck", {"I": i["raw"]}))
+        elif i.get("inb", "true") != "true":
+            out.append(Failure(sc, prof, i["step"], f"{line}: returned a reference beyond a field array's length", f"C19:{sub}:oob", {"I": i["raw"]}))
+    return out
+
+
+MONITORS["C19"] = mon_c19
+
+
 def still_differs(prop, sc):
     path = os.path.join(WORK, prop, "min.scn")
     write_scenarios(path, [sc])
